@@ -34,6 +34,7 @@ verdict; if it fails the violation is still reported with a coarse label.
 
 from __future__ import annotations
 
+import gc
 import itertools
 import math
 import signal
@@ -133,7 +134,11 @@ def dec_arg(s: str):
 def call(fn, args):
     """('ret', tree) | ('exc', type name, text) | ('timeout',)"""
     try:
-        v = _with_limit(CALL_TIMEOUT, fn, *args)
+        try:
+            v = _with_limit(CALL_TIMEOUT, fn, *args)
+        except _Timeout:
+            # not a verdict yet: give the same call five times the budget before calling it endless
+            v = _with_limit(5 * CALL_TIMEOUT, fn, *args)
     except _Timeout:
         return ('timeout',)
     except RecursionError as e:
@@ -151,7 +156,7 @@ def show_outcome(o) -> str:
     if o[0] == 'ret':
         return show_tree(o[1])
     if o[0] == 'timeout':
-        return f'<no result within {CALL_TIMEOUT:.0f} s of CPU time>'
+        return f'<no result within {5 * CALL_TIMEOUT:.0f} s of CPU time>'
     return f'<raises {o[1]}: {o[2]}>'
 
 
@@ -868,7 +873,8 @@ class Check(BaseCheck):
         'the original and the transformed program run on the same default interpreter; the interpreter itself is '
         'checked by C04',
         'only inputs on which the original returns are judged',
-        f'a call that uses more than {CALL_TIMEOUT:.0f} s of CPU time (normal: < 1 ms) counts as not returning',
+        f'a call that uses more than {CALL_TIMEOUT:.0f} s and, tried again, more than {5 * CALL_TIMEOUT:.0f} s of CPU time '
+        '(normal: < 1 ms) counts as not returning',
         'sizes, families and pools are bounds: larger programs, other statement kinds and other inputs are not explored',
     ]
     trusted_base = ['CPython', 'fpy2 front end and bytecode interpreter (as the common evaluator of both sides)']
@@ -1047,6 +1053,7 @@ class Check(BaseCheck):
         k, m = shard
         r = ShardResult()
         ensure_helpers(pg.HELPERS)
+        gc.disable()        # collections happen between batches, never inside a time-limited call
         rt = fp.interpret.get_default_interpreter() if hasattr(fp, 'interpret') else None
         batch = []
 
@@ -1066,6 +1073,7 @@ class Check(BaseCheck):
             batch.clear()
             if rt is not None and hasattr(rt, 'func_cache'):
                 rt.func_cache.clear()
+            gc.collect()
 
         for idx, fam, size, src in self.programs():
             if idx % m != k:
@@ -1074,6 +1082,7 @@ class Check(BaseCheck):
             if len(batch) >= BATCH:
                 flush()
         flush()
+        gc.enable()
         return r
 
     # ---- replay ----------------------------------------------------------
